@@ -182,6 +182,62 @@ def run(prop, seed, budget, ctx):
                 if ok is not True:
                     failures.append({"kind": "P", "why": ["invalid-against-declared-meta-schema:" + msg], "py": t.py, "tsrc": t.decls(),
                                      "version": ver, "fn": fn.__name__, "schema": s, "k_ok": None, "features": sorted(t.features())})
+    # part 3: conversions changing the referenced type (field-level, dynamic, definitions_schema entries with a conversion)
+    from apischema.json_schema import serialization_schema as sschema
+    fam_src = ["from dataclasses import dataclass, field", "from typing import *", "from apischema.metadata import conversion", ""]
+    nfam = 25 * budget
+    for i in range(nfam):
+        fam_src += ["@dataclass", f"class Foo{i}:", "    a: int", "", "@dataclass", f"class Bar{i}:", "    b: str", "",
+                    f"def foo_to_bar{i}(f: Foo{i}) -> Bar{i}:", f"    return Bar{i}(str(f.a))", "",
+                    "@dataclass", f"class Holder{i}:", f"    x: Foo{i} = field(metadata=conversion(serialization=foo_to_bar{i}))",
+                    f"    y: Foo{i} = field(metadata=conversion(serialization=foo_to_bar{i}))", "    z: int = 0", "",
+                    "@dataclass", f"class NodeRef{i}:", "    id: int", "",
+                    "@dataclass", f"class Node{i}:", "    value: int", f"    parent: Optional[NodeRef{i}] = None", ""]
+    fam_src += [f"def resolve{i}(r: NodeRef{i}) -> Node{i}:\n    return Node{i}(r.id)\n" for i in range(nfam)]
+    fam_src += [f"Node{i}.__dataclass_fields__['parent'].metadata = conversion(serialization=resolve{i})" for i in range(0)]   # (kept simple: see RNode below)
+    for i in range(nfam):
+        fam_src += ["@dataclass", f"class RRef{i}:", "    id: int", "", f"def rresolve{i}(r: RRef{i}) -> 'RNode{i}':", f"    return RNode{i}(r.id)", "",
+                    "@dataclass", f"class RNode{i}:", "    value: int", f"    parent: Optional[RRef{i}] = field(default=None, metadata=conversion(serialization=rresolve{i}))", ""]
+    m4 = build_module(fam_src, f"refsconv{seed}"); ns4 = dict(vars(m4))
+    def closed_and_no_orphans(s, what, ctxinfo):
+        defs = s.get("$defs", {})
+        used = refs_in(s) + [y for v in defs.values() for y in refs_in(v)]
+        dangling = sorted(set(x for x in used if x not in defs)); orphans = sorted(set(defs) - set(used))
+        if dangling: failures.append(dict(ctxinfo, kind="P", k_ok=None, why=["dangling-$ref:" + ",".join(dangling)], schema=s, what=what))
+        if orphans: failures.append(dict(ctxinfo, kind="P", k_ok=None, why=["definition-nobody-references:" + ",".join(orphans)], schema=s, what=what))
+        ok, msg = meta_valid(s) if "$schema" in s else (True, "")
+        if ok is not True: failures.append(dict(ctxinfo, kind="P", k_ok=None, why=["invalid-against-declared-meta-schema:" + msg], schema=s, what=what))
+        return defs
+    for i in range(nfam):
+        Foo, Bar, Holder, RNode, conv = ns4[f"Foo{i}"], ns4[f"Bar{i}"], ns4[f"Holder{i}"], ns4[f"RNode{i}"], ns4[f"foo_to_bar{i}"]
+        info = {"family": i, "src_hint": "Foo -> Bar by foo_to_bar; Holder.x, Holder.y: Foo with a field-level serialization conversion; RNode.parent: Optional[RRef] resolved to RNode"}
+        for all_refs in (False, True):
+            evaluations += 1; distinct.add(("conv", i, all_refs))
+            lim = sys.getrecursionlimit(); sys.setrecursionlimit(1500)
+            try:
+                try: s = sschema(Holder, all_refs=all_refs)
+                except RecursionError: failures.append(dict(info, kind="P", k_ok=None, why=["schema-generation-does-not-terminate"], what="Holder")); continue
+                defs = closed_and_no_orphans(s, "serialization_schema(Holder)", dict(info, all_refs=all_refs))
+                # Bar is used twice behind the field conversions: it is what must be extracted, Foo is converted away
+                if f"Bar{i}" not in defs or f"Foo{i}" in defs:
+                    failures.append(dict(info, kind="P", k_ok=None, all_refs=all_refs, why=["extracted-definitions-differ-from-the-rule"], got=sorted(defs), expected=[f"Bar{i}"] + ([f"Holder{i}"] if all_refs else []), schema=s))
+                try: s = sschema(RNode, all_refs=all_refs)
+                except RecursionError: failures.append(dict(info, kind="P", k_ok=None, all_refs=all_refs, why=["schema-generation-does-not-terminate"], what="RNode (recursive through a field conversion)")); continue
+                closed_and_no_orphans(s, "serialization_schema(RNode)", dict(info, all_refs=all_refs))
+                # definitions_schema with a (type, conversion) entry followed by plain types = the union of the inline definitions
+                entries = [(Foo, conv), List[Foo], Bar] if i % 2 == 0 else [List[Foo], (Foo, conv)]
+                ds = dict(definitions_schema(serialization=entries, all_refs=all_refs))
+                inline = {}
+                for e in entries:
+                    s1 = sschema(e[0], conversion=e[1], all_refs=all_refs, with_schema=False) if isinstance(e, tuple) else sschema(e, all_refs=all_refs, with_schema=False)
+                    inline.update(s1.get("$defs", {}))
+                    for r in refs_in(s1):
+                        if r not in ds: failures.append(dict(info, kind="P", k_ok=None, all_refs=all_refs, why=["definitions_schema-misses-a-referenced-definition:" + r], entries=repr(entries), got=sorted(ds)))
+                # (with all_refs=False the extraction counts references across all the entries, so more may be extracted)
+                if (ds != inline) if all_refs else any(k not in ds or ds[k] != v for k, v in inline.items()):
+                    failures.append(dict(info, kind="P", k_ok=None, all_refs=all_refs, why=["definitions_schema-differs-from-inline-$defs"], entries=repr(entries), got=sorted(ds), inline=sorted(inline)))
+            finally:
+                sys.setrecursionlimit(lim)
     # name clash: two distinct classes with one type_name must be refused
     clash_src = ["from dataclasses import dataclass", "from typing import *", "from apischema import type_name", "",
                  "@type_name('Same')", "@dataclass", "class A1:", "    a: int", "", "@type_name('Same')", "@dataclass", "class A2:", "    b: str", ""]
@@ -201,7 +257,7 @@ def run(prop, seed, budget, ctx):
             "failures": failures}
 
 
-from typing import Tuple
+from typing import Tuple, List
 
 KF = {
     # DRAFT_2019_09 declares the 2020-12 meta-schema URL while emitting array-form `items`
